@@ -23,5 +23,12 @@ d, log = common.build_harness()
 assert d, log
 s, log = common.build_server()
 assert s, log
+# prime the Print Assumptions cache (compiling a property file again takes up to three minutes)
+import json
+from concurrent.futures import ThreadPoolExecutor
+pids = [c["property_id"] for c in json.load(open("MANIFEST.json"))["checks"]] + ["C16Findings"]
+with ThreadPoolExecutor(8) as ex:
+    for pid, rep in zip(pids, ex.map(common.props_report, pids)):
+        assert rep["ok"], (pid, rep.get("open"), rep.get("log", "")[-1500:])
 print("setup ok")
 PY
